@@ -59,3 +59,26 @@ Print Assumptions C15_rest_header_survives.
 From CDD Require Import SourceConstants.
 Theorem C15_tokens_set_is_the_sources : tokens_set = src_tokens_set_sorted.
 Proof. vm_compute. reflexivity. Qed.
+
+(* ---- where the prose of a Google-style docstring ends (Model/GoogleHead.v: location_within of "Args:" and the text in front of it, as
+   _scan_phase_numpydoc_and_google computes it, and the description _parse_phase_numpydoc_and_google derives from it; both compared
+   with the code each run).  For EVERY colon-free header that is not blank at either end -- one paragraph or several -- and EVERY
+   blank separator (a line break, a blank line, an indented blank line, nothing), the description of the parsed interface is that
+   header, whole: a paragraph that runs straight into "Args:" is not lost. *)
+From CDD Require GoogleLine GoogleLineProofs GoogleHead GoogleHeadProofs.
+Theorem C15_google_header_kept : forall H sep rest : str,
+  RestDocProofs.head_ok H = true -> RestDocProofs.head_ok (rev H) = true -> GoogleLineProofs.lacks GoogleLine.GCOLON H = true ->
+  RestDocProofs.blank sep = true ->
+  fst (GoogleHead.google_scan_head (H ++ sep ++ GoogleHead.ARGS ++ rest)) = H /\ GoogleHead.google_ir_doc (H ++ sep ++ GoogleHead.ARGS ++ rest) = H.
+Proof. exact GoogleHeadProofs.google_header_kept. Qed.
+Print Assumptions C15_google_header_kept.
+Example C15_google_header_examples :
+  GoogleHead.google_ir_doc (s2l "Scale it." ++ [NL; NL] ++ s2l "Nothing is modified in place." ++ [NL] ++ s2l "Args:" ++ [NL] ++ s2l "  x (int): v")
+  = s2l "Scale it." ++ [NL; NL] ++ s2l "Nothing is modified in place."
+  /\ GoogleHead.google_ir_doc (s2l "Scale it." ++ [NL; SP; SP; SP; SP; NL; SP; SP; SP; SP] ++ s2l "Args:" ++ [NL] ++ s2l "  x (int): v") = s2l "Scale it."
+  /\ GoogleHead.google_ir_doc (s2l "No section here") = s2l "No section here".
+Proof. exact GoogleHeadProofs.google_header_examples. Qed.
+(* outside the domain: prose that spells the token loses everything behind it (the FIRST "Args:" wins) *)
+Example C15_google_header_refuted :
+  GoogleHead.google_ir_doc (s2l "See Args: below." ++ [NL; NL] ++ s2l "Args:" ++ [NL] ++ s2l "  x: v") = s2l "See".
+Proof. exact GoogleHeadProofs.google_header_refuted. Qed.
